@@ -37,6 +37,7 @@ const c03cIndex = 5 // the palette index used where a format needs one
 func c03ColourReplyAgreement(c *Ctx) {
 	c.Clauses = append(c.Clauses, "C03.p a colour reply in the form the library's own emulator writes it, scanned and converted by the query function of that selector, yields the colour the emulator reported (format strings of both ends evaluated with sample colours)")
 	c.expect("C03.p", 1)
+	debugDumpFuncs(c) // VX_DUMP_FN=... prints functions as the rules see them
 	vp := c.P.Pkg("vaxis")
 	rgbF := c.P.Func("vaxis.RGBColor")
 	if vp == nil || rgbF == nil {
@@ -74,6 +75,7 @@ func c03ColourReplyAgreement(c *Ctx) {
 		call   *ast.CallExpr
 		format string
 		via    string
+		site   *c03cSite
 	}
 	var cons []consumer
 	for _, fi := range c.P.FuncsIn("vaxis") {
@@ -92,14 +94,15 @@ func c03ColourReplyAgreement(c *Ctx) {
 			}
 			if f, ok := c03cString(info, call.Args[1], 0, nil); ok {
 				if strings.Contains(f, "rgb:%") {
-					cons = append(cons, consumer{fi, call, f, ""})
+					cons = append(cons, consumer{fi, call, f, "", nil})
 				}
 				return true
 			}
 			// the pattern may be handed to a shared helper by its callers: one consumer per call site
 			for _, cs := range c03cCallSites(c, fi) {
+				cs := cs
 				if f, ok := c03cString(info, call.Args[1], 0, cs.bind); ok && strings.Contains(f, "rgb:%") {
-					cons = append(cons, consumer{fi, call, f, " called by " + cs.caller})
+					cons = append(cons, consumer{fi, call, f, " called by " + cs.caller, &cs})
 				}
 			}
 			return true
@@ -119,7 +122,7 @@ func c03ColourReplyAgreement(c *Ctx) {
 			}
 			matched++
 			ckey := key + "/" + cn.fi.Name + cn.via + " answers the colour the emulator reported"
-			ok, und, why := c03cAgree(c, p.payload, nPre, cn.fi, cn.call, cn.format, rgbF)
+			ok, und, why := c03cAgree(c, p.payload, nPre, cn.fi, cn.call, cn.format, rgbF, cn.site)
 			switch {
 			case und:
 				c.undecided("C03.p", ckey, cn.call.Pos(), "%s", why)
@@ -160,6 +163,13 @@ func c03cString(info *types.Info, e ast.Expr, depth int, bind map[types.Object]s
 			}
 		}
 	case *ast.CallExpr:
+		if fn := calleeOf(info, t); fn != nil && fullName(fn) == "strconv.Itoa" && len(t.Args) == 1 {
+			// the decimal text of an integer: the sample palette index stands for it
+			if tv, ok := info.Types[t.Args[0]]; ok && tv.Value != nil && tv.Value.Kind() == constant.Int {
+				return tv.Value.ExactString(), true
+			}
+			return fmt.Sprint(c03cIndex), true
+		}
 		if fn := calleeOf(info, t); fn != nil && fullName(fn) == "fmt.Sprintf" && len(t.Args) >= 1 {
 			f, ok := c03cString(info, t.Args[0], depth+1, bind)
 			if !ok {
@@ -205,7 +215,7 @@ var c03cKinds = map[types.BasicKind]reflect.Type{
 
 // c03cAgree: scan the emulator's reply for the sample colours with the consumer's pattern and evaluate what the
 // consumer returns
-func c03cAgree(c *Ctx, payload string, nPre int, fi *FuncInfo, call *ast.CallExpr, format string, rgbF *FuncInfo) (ok, und bool, why string) {
+func c03cAgree(c *Ctx, payload string, nPre int, fi *FuncInfo, call *ast.CallExpr, format string, rgbF *FuncInfo, site *c03cSite) (ok, und bool, why string) {
 	info := fi.Pkg.TypesInfo
 	// the scanned variables
 	var objs []types.Object
@@ -258,9 +268,6 @@ func c03cAgree(c *Ctx, payload string, nPre int, fi *FuncInfo, call *ast.CallExp
 		}
 		return true
 	})
-	if len(rets) == 0 {
-		return false, true, "no return of " + fi.Name + " after the Sscanf depends on the scanned channels: the conversion of the reply is not where the evaluator looks for it"
-	}
 	for _, smp := range c03cSamples {
 		args := make([]any, 0, nPre+3)
 		for i := 0; i < nPre; i++ {
@@ -296,6 +303,24 @@ func c03cAgree(c *Ctx, payload string, nPre int, fi *FuncInfo, call *ast.CallExp
 				env[o] = int64(ev.Uint())
 			}
 		}
+		// the answer along the path a successful scan takes, through helpers up to the query function
+		penv := map[types.Object]int64{}
+		for o, v := range env {
+			penv[o] = v
+		}
+		answers, pwhy := c03cPathAnswers(c, fi, call, []c03cVal{{int64(len(objs)), true}, {0, true}}, penv, site, 0)
+		if pwhy == "" {
+			for _, a := range answers {
+				if a.v != wantCol {
+					return false, false, fmt.Sprintf("for the colour #%02x%02x%02x the emulator replies %q; %s scans it with %q and %s = %#x, not RGBColor(0x%02x, 0x%02x, 0x%02x) = %#x",
+						smp[0], smp[1], smp[2], text, fi.Name, format, a.where, a.v, smp[0], smp[1], smp[2], wantCol)
+				}
+			}
+			continue
+		}
+		if len(rets) == 0 {
+			return false, true, "the answer of " + fi.Name + " for a scanned reply could not be followed (" + pwhy + ") and no return after the Sscanf depends on the scanned channels directly"
+		}
 		for _, r := range rets {
 			ev := &c03cEval{c: c, info: info, env: env}
 			got, okG := ev.expr(r.Results[0], 0)
@@ -313,10 +338,12 @@ func c03cAgree(c *Ctx, payload string, nPre int, fi *FuncInfo, call *ast.CallExp
 
 // c03cEval: typed integer evaluation of expressions over an environment of locals
 type c03cEval struct {
-	c    *Ctx
-	info *types.Info
-	env  map[types.Object]int64
-	why  string
+	c        *Ctx
+	info     *types.Info
+	env      map[types.Object]int64
+	why      string
+	override map[*ast.CallExpr][]c03cVal // calls whose results the path walk supplies (c03_colour_path.go)
+	unknown  map[types.Object]bool       // locals the path walk assigned a value it does not know
 }
 
 // c03cTrunc: v as a value of type t (integer kinds wrap as Go's conversions and arithmetic do)
@@ -377,13 +404,26 @@ func (ev *c03cEval) expr(e ast.Expr, depth int) (int64, bool) {
 		typ = tv.Type
 	}
 	switch t := e.(type) {
+	case *ast.BasicLit:
+		if t.Kind == token.INT {
+			if n, exact := constant.Int64Val(constant.MakeFromLiteral(t.Value, token.INT, 0)); exact {
+				return n, true
+			}
+		}
+		return ev.fail("literal %s", t.Value)
 	case *ast.Ident:
 		o := ev.info.Uses[t]
 		if o == nil {
 			o = ev.info.Defs[t]
 		}
+		if _, isNil := o.(*types.Nil); isNil {
+			return 0, true
+		}
 		if v, ok := ev.env[o]; ok {
 			return v, true
+		}
+		if ev.unknown[o] {
+			return ev.fail("variable %s holds a value the evaluator does not know", t.Name)
 		}
 		if lv, ok := o.(*types.Var); ok && !lv.IsField() {
 			if def := singleDefOf(ev.info, lv); def != nil {
@@ -483,6 +523,12 @@ func (ev *c03cEval) expr(e ast.Expr, depth int) (int64, bool) {
 		}
 		return ev.fail("operator %s", t.Op)
 	case *ast.CallExpr:
+		if ov, ok := ev.override[t]; ok {
+			if len(ov) == 1 && ov[0].ok {
+				return ov[0].v, true
+			}
+			return ev.fail("call of %s does not give one known value", types.ExprString(t.Fun))
+		}
 		// conversion
 		if ftv, ok := ev.info.Types[t.Fun]; ok && ftv.IsType() && len(t.Args) == 1 {
 			if b, isB := ftv.Type.Underlying().(*types.Basic); !isB || b.Info()&types.IsInteger == 0 {
@@ -647,6 +693,8 @@ func c03cCall(c *Ctx, hf *FuncInfo, args []int64, depth int) (int64, bool) {
 type c03cSite struct {
 	caller string
 	bind   map[types.Object]string
+	cf     *FuncInfo
+	call   *ast.CallExpr
 }
 
 // c03cCallSites: the static calls of fi in package vaxis, each with the string values of the arguments it binds
@@ -681,7 +729,7 @@ func c03cCallSites(c *Ctx, fi *FuncInfo) []c03cSite {
 					}
 				}
 			}
-			out = append(out, c03cSite{cf.Name, bind})
+			out = append(out, c03cSite{cf.Name, bind, cf, call})
 			return true
 		})
 	}
